@@ -12,7 +12,8 @@
    allocated / freed).  Dereferencing a pointer that is not allocated is `TStuck` (undefined behaviour in C),
    a loop that runs out of fuel is `TStuck` too; `TFail` is the C function returning FALSE / NULL / an error.
    Definitions only (no proofs here: the model must still run when a proof breaks).
-   Not modelled: allocation failure; the content of a nested tree (a TREE node carries only its language). *)
+   Not modelled: allocation failure; the content of a nested tree (a TREE node carries the language and the identity
+   of the nested tree object it owns, so that its ownership can be followed). *)
 From Coq Require Import List NArith Bool String.
 From Wbxml Require Import Model.TablesDefs.
 Import ListNotations.
@@ -121,7 +122,7 @@ Inductive data :=
 | DText (content : bytes)
 | DCdata
 | DPi
-| DTree (lang : N).
+| DTree (lang : N) (tree : option N).   (* node->tree: the nested WBXMLTree object the node owns (None = NULL) *)
 
 Record node := mkN { n_data : data; n_parent : option id; n_children : option id;
                      n_next : option id; n_prev : option id }.
@@ -233,8 +234,10 @@ Definition extract_node (t : tstate) (n : id) : tres tstate :=
   do nn3 <- get h3 n;
   TOk (mkT (upd h3 n (Some (set_prev (set_next nn3 None) None))) root1 (cur_page t) (fresh t)).
 
-(* wbxml_tree_node_destroy: releases one node (and, for a TREE node, the nested tree: not modelled) *)
+(* wbxml_tree_node_destroy: releases one node; for a TREE node it also destroys node->tree (see node_tree) *)
 Definition free_node (h : heap) (i : id) : heap := upd h i None.
+Definition node_tree (h : heap) (i : id) : option N :=
+  match h i with Some n => match n_data n with DTree _ (Some tr) => Some tr | _ => None end | None => None end.
 
 (* the common tail of the wbxml_tree_add_* functions:
      if (!wbxml_tree_add_node(tree, parent, node)) { wbxml_tree_node_destroy(node); return NULL; } return node;
@@ -314,12 +317,14 @@ Definition add_xml_elt_with_attrs fuel l t parent name (kvs : list (bytes * byte
 Definition add_text fuel t parent (text : bytes) := add_new fuel t parent (DText text).
 Definition add_cdata fuel t parent := add_new fuel t parent DCdata.
 
-(* wbxml_tree_add_tree: the node is linked first, then node->tree = new_tree *)
-Definition add_tree fuel t parent (lang : N) : tres (tstate * option id) :=
-  do r <- add_new fuel t parent (DTree 0);
+(* wbxml_tree_add_tree: the node (node->tree still NULL) is linked first, then node->tree = new_tree.
+   On the failure path (add_node refuses: NULL tree, or NULL parent on a rooted tree) the node is destroyed while its
+   tree pointer is NULL: the offered tree stays with the caller. *)
+Definition add_tree fuel t parent (lang : N) (new_tree : N) : tres (tstate * option id) :=
+  do r <- add_new fuel t parent (DTree 0 None);
   match r with
   | (t1, Some n) => do nn <- get (heap_of t1) n;
-                    TOk (with_heap t1 (upd (heap_of t1) n (Some (set_data nn (DTree lang)))), Some n)
+                    TOk (with_heap t1 (upd (heap_of t1) n (Some (set_data nn (DTree lang (Some new_tree))))), Some n)
   | (t1, None) => TOk (t1, None)
   end.
 
@@ -569,7 +574,8 @@ Inductive op :=
 | OpAddXmlElt (p : option id) (name : bytes) (kvs : list (bytes * bytes)) (text : bytes)
 | OpAddText (p : option id) (text : bytes)
 | OpAddCdata (p : option id)
-| OpAddTree (p : option id) (lang : N)
+| OpAddTree (p : option id) (lang : N) (new_tree : N)
+| OpAddNull (d : data)        (* wbxml_tree_add_elt / _add_text / _add_cdata / _add_tree called with tree == NULL *)
 | OpAddAttr (n : id) (k v : bytes)
 | OpExtract (n : id)
 | OpReAdd (p : option id) (n : id)
@@ -607,8 +613,11 @@ Definition exec (l : tlang) (c : cstate) (o : op) : tres (cstate * bool) :=
     if parent_ok h p then lift_add c (add_text fuel t p text) else TOk (c, false)
   | OpAddCdata p =>
     if parent_ok h p then lift_add c (add_cdata fuel t p) else TOk (c, false)
-  | OpAddTree p lang =>
-    if parent_ok h p then lift_add c (add_tree fuel t p lang) else TOk (c, false)
+  | OpAddTree p lang new_tree =>
+    if parent_ok h p then lift_add c (add_tree fuel t p lang new_tree) else TOk (c, false)
+  | OpAddNull d =>
+    (* the node is created, wbxml_tree_add_node refuses it (tree == NULL), the node is destroyed, NULL is returned *)
+    let (t1, n) := alloc t d in TOk (mkC (with_heap t1 (free_node (heap_of t1) n)) (det c), false)
   | OpAddAttr n k v =>
     match h n with
     | Some nn => match n_data nn with
@@ -661,3 +670,69 @@ Definition finish (c : cstate) : tres (heap * list id) :=
   do r <- destroy_detached fuel (heap_of (ts c)) (det c);
   do r2 <- tree_destroy fuel (mkT (fst r) (root (ts c)) 0 (fresh (ts c)));
   TOk (fst r2, snd r ++ snd r2).
+
+(* ------------------------------------------------------------------ *)
+(* the XML front end as a client of the tree API (wbxml_tree_clb_xml.c, the plain paths: no SyncML CDATA insertion, no
+   binary-flagged element, no embedded document).  `current` is the callback context's current node:
+     start_element : current = wbxml_tree_add_xml_elt_with_attrs(tree, current, name, attrs)
+     characters    : wbxml_tree_add_text(tree, current, chunk)         (Expat may deliver one text in several chunks)
+     end_element   : current = current->parent   (left alone when it is the root)                                   *)
+
+Inductive xnode := XElt (name : bytes) (kvs : list (bytes * bytes)) (kids : list xnode) | XText (chunks : list bytes).
+
+Fixpoint fe_texts (fuel : nat) (t : tstate) (cur : option id) (chunks : list bytes) : tres tstate :=
+  match chunks with
+  | [] => TOk t
+  | ch :: r => do x <- add_text fuel t cur ch;
+               match x with (t1, Some _) => fe_texts fuel t1 cur r | (_, None) => TFail end
+  end.
+
+Fixpoint fe_node (fuel : nat) (l : tlang) (t : tstate) (cur : option id) (x : xnode) : tres (tstate * option id) :=
+  match x with
+  | XText chunks => do t1 <- fe_texts fuel t cur chunks; TOk (t1, cur)
+  | XElt name kvs kids =>
+    do r <- add_xml_elt_with_attrs fuel l t cur name kvs;
+    match r with
+    | (t1, Some n) =>
+      do r2 <- (fix kids_loop (t : tstate) (cur : option id) (ks : list xnode) : tres (tstate * option id) :=
+                  match ks with
+                  | [] => TOk (t, cur)
+                  | k :: rest => do r <- fe_node fuel l t cur k; kids_loop (fst r) (snd r) rest
+                  end) t1 (Some n) kids;
+      (* end_element *)
+      match snd r2 with
+      | Some c => do cn <- get (heap_of (fst r2)) c;
+                  TOk (fst r2, match n_parent cn with Some p => Some p | None => Some c end)
+      | None => TFail
+      end
+    | (_, None) => TFail
+    end
+  end.
+
+(* what the document denotes: text chunks joined, names and attributes resolved by the same functions *)
+Fixpoint xdenote (l : tlang) (x : xnode) : list shape :=
+  match x with
+  | XText chunks => match chunks with [] => [] | _ => [Sh (DText (List.concat chunks)) []] end
+  | XElt name kvs kids =>
+    [Sh (DElt (snd (resolve_xml_elt l name)) (map (fun kv => resolve_xml_attr l (fst kv) (snd kv)) kvs))
+        (flat_map (xdenote l) kids)]
+  end.
+
+(* documents as Expat reports them: no empty text, no two text items in a row (they would be one text) *)
+Definition is_xtext (x : xnode) : bool := match x with XText _ => true | _ => false end.
+Fixpoint no_adjacent_xtext (ks : list xnode) : bool :=
+  match ks with
+  | a :: ((b :: _) as rest) => negb (is_xtext a && is_xtext b) && no_adjacent_xtext rest
+  | _ => true
+  end.
+Fixpoint xnf (x : xnode) : bool :=
+  match x with
+  | XText chunks => match chunks with [] => false | _ => forallb (fun c => match c with [] => false | _ => true end) chunks end
+  | XElt _ _ kids => no_adjacent_xtext kids && forallb xnf kids
+  end.
+Fixpoint xsize (x : xnode) : nat :=
+  match x with XText chunks => List.length chunks | XElt _ _ kids => S (list_sum (map xsize kids)) end.
+
+(* the whole document: the root element on the empty tree *)
+Definition fe_doc (fuel : nat) (l : tlang) (x : xnode) : tres (tstate * option id) :=
+  fe_node fuel l (ts init_state) None x.
